@@ -113,3 +113,7 @@ Definition ex_fs : node :=
 Definition ex_dir : bytes := [47;119;119;119;47].                        (* "/www/" *)
 Definition ex_root : list bytes := [[119;119;119]].
 
+
+(* the smallest tree with one file under the served directory "www" (witnesses of C06_complete_without_exclusions_refuted) *)
+Definition one_file_tree (name : bytes) : node := Dir [([119;119;119], Dir [(name, File [1])])].
+
